@@ -140,6 +140,17 @@ fn main() {
                 break;
             }
         }
+        if name.ends_with("_should_panic") {
+            // #[kani::should_panic] harness: it fails when no enumerated input makes the body panic
+            match first_fail {
+                Some(_) => println!("{name}: holds natively (the expected panic occurs) on {} enumerated inputs", runs),
+                None => {
+                    failures += 1;
+                    println!("{name}: FAILS natively: the call returns without the expected panic ({} runs)", runs);
+                }
+            }
+            continue;
+        }
         match first_fail {
             Some((sc, msg)) => {
                 failures += 1;
